@@ -6,8 +6,10 @@ common_metadata, metadata_differences, is_disjoint, is_semi_regular, is_regular,
 eval_date_resolution, is_slicewise_disjoint, slice_period_rows) and the Lean model (drv_c13); the Lean Spec predicates and the independently
 written taxonomy definitions (Spec/C13.lean) are evaluated against the IMPLEMENTATION's outputs."""
 import calendar
+import dataclasses
 import datetime
 import json
+import os
 from fractions import Fraction
 
 import numpy as np
@@ -15,6 +17,7 @@ import numpy as np
 import common
 from common import w_cells, w_meta, w_date, w_rat, canon_cell, call
 import gen
+import c09_seq
 from bermuda import Cell, CumulativeCell, IncrementalCell, Metadata, Triangle
 from bermuda.date_utils import dev_lag_months
 
@@ -344,13 +347,23 @@ def float_ok_lags(t):
                for a, b, aq, bq in zip(fl[1:-1], fl[2:], ex[1:-1], ex[2:]))
 
 
-def impl_dump(t, units):
+def unit_calls(t, u, defaults):
+    """the three unit-taking accessors for unit `u`. With `defaults` the month answers are taken from the calls WITHOUT
+    argument (dev_lags(), is_semi_regular(), is_regular()) and every other unit is passed by keyword."""
+    if not defaults:
+        return (lambda: t.dev_lags(u)), (lambda: t.is_semi_regular(u)), (lambda: t.is_regular(u))
+    if u == "month":
+        return (lambda: t.dev_lags()), (lambda: t.is_semi_regular()), (lambda: t.is_regular())
+    return (lambda: t.dev_lags(unit=u)), (lambda: t.is_semi_regular(dev_lag_unit=u)), (lambda: t.is_regular(dev_lag_unit=u))
+
+
+def impl_dump(t, units, defaults=False):
     exact_months = sorted({exact_lag_months(c.period_end, c.evaluation_date) for c in t.cells})
     d = {}
     d["periods"] = wrap(call(lambda: t.periods), lambda ps: [[w_date(a), w_date(b)] for a, b in ps])
     d["evaluation_dates"] = wrap(call(lambda: t.evaluation_dates), lambda ds: [w_date(x) for x in ds])
     d["evaluation_date"] = wrap(call_cls(lambda: t.evaluation_date), w_date)
-    d["dev_lags"] = {u: wrap(call(lambda u=u: t.dev_lags(u)),
+    d["dev_lags"] = {u: wrap(call(unit_calls(t, u, defaults)[0]),
                              lambda ls, u=u: [w_rat(lag_to_rat(x, exact_months, unit_kind(u))) for x in ls])
                      for u in units}
     d["fields"] = wrap(call(lambda: t.fields), list)
@@ -365,8 +378,8 @@ def impl_dump(t, units):
     d["is_slicewise_disjoint"] = wrap(call(lambda: t.is_slicewise_disjoint), bool)
     d["slice_period_rows"] = wrap(call(lambda: list(t.slice_period_rows)), lambda rows: [
         [w_meta(k[0]), [w_date(k[1][0]), w_date(k[1][1])], w_cells(row)] for k, row in rows])
-    d["is_semi_regular"] = {u: wrap(call(lambda u=u: t.is_semi_regular(u)), bool) for u in units}
-    d["is_regular"] = {u: wrap(call(lambda u=u: t.is_regular(u)), bool) for u in units}
+    d["is_semi_regular"] = {u: wrap(call(unit_calls(t, u, defaults)[1]), bool) for u in units}
+    d["is_regular"] = {u: wrap(call(unit_calls(t, u, defaults)[2]), bool) for u in units}
     d["period_resolution"] = wrap(call(lambda: t.period_resolution), lambda x: None if x is None else int(x))
     d["eval_date_resolution"] = wrap(call(lambda: t.eval_date_resolution), lambda x: None if x is None else int(x))
     return d
@@ -388,19 +401,689 @@ def to_driver(d):
     return out
 
 
+# ---- generator lessons of seeded batch 4 (round 6): a fixed quota of each input kind in EVERY run ------------------
+# Every generator below calls `put(stream, tags, cells, ...)`, which builds the Triangle and hands it to the SAME
+# per-case function as the random cases (`emit`: model comparison, Spec predicates on the implementation's output,
+# independent taxonomy, nesting, second read). Histogram keys `lesson/<stream>/<tag>`.
+
+am = gen.add_months_int
+ALL_UNITS = ["month", "day", "timedelta", "months", "Month", "MONTHS", "days", "Day", "DAYS", "Timedelta",
+             "TIMEDELTA", "monthly", "weeks", "fortnight", "timedeltas", ""]
+BASE_UNITS = ["month", "day", "timedelta"]
+
+
+def rows_cells(kind, rows, m, valfn):
+    """cells of one slice from rows (ps, pe, [ascending evals]); `valfn(ps, pe, ev)` gives the values dict"""
+    out = []
+    for ps, pe, evs in rows:
+        prev = ps - DAY
+        for ev in evs:
+            vals = valfn(ps, pe, ev)
+            if kind == "I":
+                out.append(IncrementalCell(ps, pe, prev, ev, vals, m))
+                prev = ev
+            elif kind == "U":
+                out.append(CumulativeCell(ps, pe, ev, vals, m))
+            else:
+                out.append(Cell(ps, pe, ev, vals, m))
+    return out
+
+
+def scalars(rng, fields=("paid_loss", "reported_loss")):
+    return lambda ps, pe, ev: {f: gen.rand_value(rng, "int") for f in fields}
+
+
+def month_rows(start, res, n_periods, lags, lag_step=1):
+    """month-aligned periods of `res` months; evaluation dates `lag * lag_step` months after the period end (month
+    ends). `lags`: one list for all periods or one list per period"""
+    rows = []
+    for i in range(n_periods):
+        ps = am(start, i * res)
+        pe = am(ps, res - 1, end=True)
+        ls = lags[i] if lags and isinstance(lags[0], (list, tuple)) else lags
+        rows.append((ps, pe, [am(pe, k * lag_step, end=True) for k in sorted(set(ls))]))
+    return rows
+
+
+def rkind(rng):
+    return rng.choice(["C", "U", "I"])
+
+
+# -- lesson 1: sizes ---------------------------------------------------------------------------------------------
+
+def les_large(rng, put):
+    y = rng.randrange(1990, 2020)
+    # >= 300 cells in one slice (25 monthly periods x 12 lags); second flavour: ONE late cell two months off the grid
+    for late in (False, True):
+        rows = month_rows(D(y, 1, 1), 1, 25, list(range(12)))
+        if late:
+            ps, pe, evs = rows[-1]
+            rows[-1] = (ps, pe, evs[:-1] + [am(evs[-1], 2, end=True)])
+        put("large", ["cells>=300", "late-off-grid-lag" if late else "regular"],
+            rows_cells(rkind(rng), rows, Metadata(country="US"), scalars(rng)))
+    # >= 300 cells of samples; the LAST cell alone has another sample count / the only second field
+    for tag in ("last-cell-other-sample-count", "last-cell-only-field"):
+        cells = rows_cells(rkind(rng), month_rows(D(y, 1, 1), 1, 25, list(range(12))), Metadata(country="US"),
+                           lambda ps, pe, ev: {"paid_loss": gen.rand_value(rng, "iarr", n_samples=2)})
+        cells[-1] = cells[-1].derive_fields(**({"paid_loss": gen.rand_value(rng, "iarr", n_samples=3)}
+                                               if tag == "last-cell-other-sample-count" else {"zz_late": 0}))
+        put("large", ["cells>=300", tag], cells)
+    # >= 256 slices of one cell; the odd slice (other currency / lacking the shared detail / the only one with a
+    # second field) sorts last or second to last (country is the position key)
+    # (sizes: exactly 256 for the plain flavour; an ODD count / not a multiple of 256 where the last slice deviates, so
+    # that pairwise folds and block-wise loops have a tail)
+    for flavour in ("all-share", "last-differs", "second-to-last-differs"):
+        n = {"all-share": 256, "last-differs": 257, "second-to-last-differs": rng.choice([258, 259, 300])}[flavour]
+        odd = {"all-share": None, "last-differs": n - 1, "second-to-last-differs": n - 2}[flavour]
+        kind = rkind(rng)
+        cells = []
+        for i in range(n):
+            m = Metadata(country=f"C{i:03d}", currency="USD" if i != odd else rng.choice([None, "EUR"]),
+                         per_occurrence_limit=0, details={"lob": "auto"} if i != odd else {},
+                         loss_details={"peril": "wind"})
+            vals = {"paid_loss": i} if i != odd else {"paid_loss": i, "earned_premium": 7}
+            cells += rows_cells(kind, [(D(y, 1, 1), D(y, 12, 31), [D(y, 12, 31)])], m, lambda *a, v=vals: dict(v))
+        put("large", [f"slices>={256}", flavour], cells)
+    # >= 256 periods in one slice: equal disjoint months; LAST period overlapping its neighbour by one day; LAST
+    # period one month longer; one-day periods with one two-day period late
+    for flavour in ("disjoint", "last-overlaps-one-day", "last-longer"):
+        n = {"disjoint": 256, "last-overlaps-one-day": 257, "last-longer": rng.choice([257, 259, 300])}[flavour]
+        rows = month_rows(D(y, 1, 1), 1, n, [0])
+        ps, pe, evs = rows[-1]
+        if flavour == "last-overlaps-one-day":
+            rows[-1] = (ps - DAY, pe, evs)
+        elif flavour == "last-longer":
+            pe2 = am(pe, 1, end=True)
+            rows[-1] = (ps, pe2, [pe2])
+        put("large", ["periods>=256", flavour], rows_cells(rkind(rng), rows, Metadata(), scalars(rng, ("paid_loss",))))
+    d0 = D(y, rng.randrange(1, 13), rng.randrange(1, 28))
+    rows, cur = [], d0
+    late_at = n - 2
+    for i in range(n):
+        pe = cur + (DAY if i == late_at else 0 * DAY)
+        rows.append((cur, pe, [pe + 30 * DAY]))
+        cur = pe + DAY
+    put("large", ["periods>=256", "one-day-periods", "late-two-day-period"],
+        rows_cells(rkind(rng), rows, Metadata(), scalars(rng, ("paid_loss",))))
+    # >= 256 distinct development lags on one period: regular; and steps of two months with the second-to-last lag one
+    # month late (gaps ..., 2, 3, 1: the deviations cancel, first gap = typical gap, total span = (n - 1) * first gap)
+    for late in (False, True):
+        n = 257 if late else 256
+        lags = list(range(n))
+        if late:
+            lags = [2 * k for k in range(n)]
+            lags[-2] += 1
+        put("large", ["lags>=256", "late-cancelling-off-grid-lag" if late else "regular"],
+            rows_cells(rkind(rng), month_rows(D(y, 1, 1), 1, 1, lags), Metadata(), scalars(rng, ("paid_loss",))),
+            units=BASE_UNITS)
+    # >= 256 distinct fields; the last fields live in one cell only
+    n = rng.choice([257, 260])
+    names = [f"f{i:03d}" for i in range(n)]
+    kind = rkind(rng)
+    rows = [(D(y, 1, 1), D(y, 3, 31), [D(y, 3, 31), D(y, 6, 30)])]
+    c1 = rows_cells(kind, rows, Metadata(country="US"),
+                    lambda ps, pe, ev: {f: 1 for f in (names if ev.month == 3 else names[:250] + ["zz_late"])})
+    c2 = rows_cells(kind, rows, Metadata(country="ZZ"), lambda ps, pe, ev: {f: 0 for f in names[:3] + ["zz_only_last_slice"]})
+    put("large", ["fields>=256"], c1 + c2)
+    # sample counts 40 / 256 / 1000 (and one of 80, 255, 257) mixed with scalars, size-1 and 0-d arrays;
+    # an inconsistent size only in the LAST field of the LAST cell
+    for S in (40, 256, 1000, rng.choice([80, 255, 257])):
+        for late_bad in (False, True):
+            if late_bad and S == 1000:
+                continue
+            kind = rkind(rng)
+            rows = month_rows(D(y, 1, 1), 3, 2, [0, 1], lag_step=3)
+            mix = rng.choice([["farr", "int", "iarr"], ["int", "farr"], ["iarr", "one", "zerod", "float"]])
+
+            def vf(ps, pe, ev, S=S, mix=mix):
+                out = {}
+                for f, k in zip(gen.FIELDS, mix):
+                    out[f] = (np.array([1.5]) if k == "one" else np.array(7) if k == "zerod"
+                              else gen.rand_value(rng, k, n_samples=S))
+                return out
+            cells = rows_cells(kind, rows, Metadata(country="US"), vf) + rows_cells(kind, rows, Metadata(country="ZZ"), vf)
+            if late_bad:
+                cells[-1] = cells[-1].derive_fields(zz_last_field=gen.rand_value(rng, "farr", n_samples=S + 1))
+            put("large", [f"samples={S}" if S in (40, 256, 1000) else "samples=other",
+                          "late-inconsistent-size" if late_bad else "consistent"], cells)
+
+
+# -- lesson 2: non-disjoint layouts -------------------------------------------------------------------------------
+
+def les_overlap(rng, put):
+    y = rng.randrange(1995, 2030)
+    J = D(y, 1, 1)
+
+    def evs(pe, ks=(0, 3, 12)):
+        return [am(pe, k, end=True) for k in ks]
+    stub, q1, h1, ytd = (J, am(J, 0, end=True)), (J, am(J, 2, end=True)), (J, am(J, 5, end=True)), (J, D(y, 12, 31))
+    q2, q3, q4, h2, dec = ((D(y, 4, 1), D(y, 6, 30)), (D(y, 7, 1), D(y, 9, 30)), (D(y, 10, 1), D(y, 12, 31)),
+                           (D(y, 7, 1), D(y, 12, 31)), (D(y, 12, 1), D(y, 12, 31)))
+    yend = [D(y, 12, 31), D(y + 1, 3, 31)]
+    m1, m2, m3 = Metadata(country="AA"), Metadata(country="BB"), Metadata(country="CC")
+
+    def sl(kind, periods, m, common_evals=None):
+        return rows_cells(kind, [(a, b, common_evals or evs(b)) for a, b in periods], m, scalars(rng))
+    k = rkind(rng)
+    # one slice: stub / quarter / half year / year to date from one 1 January, all observed at the SAME evaluation dates
+    put("overlap", ["same-start", "one-slice", "same-evals"], sl(k, [stub, q1, h1, ytd], m1, yend))
+    put("overlap", ["same-start", "one-slice"], sl(rkind(rng), rng.sample([stub, q1, h1, ytd], 3), m1))
+    # same period_end, different starts
+    put("overlap", ["same-end", "one-slice", "same-evals"], sl(rkind(rng), [dec, q4, h2, ytd], m1, yend))
+    k = rkind(rng)
+    put("overlap", ["same-end", "two-slices"], sl(k, [q4, h2], m1) + sl(k, [dec, ytd, q1], m2))
+    # overlap only BETWEEN slices: every slice disjoint, the triangle is not
+    k = rkind(rng)
+    put("overlap", ["between-slices-only", "same-start-across-slices"], sl(k, [q1, q3], m1) + sl(k, [h1, q4], m2))
+    k = rkind(rng)
+    put("overlap", ["between-slices-only", "nested-across-slices"], sl(k, [q1, q2, q3, q4], m1) + sl(k, [ytd], m2)
+        + sl(k, [q1, q2], m3))
+    # overlap only in the LAST slice
+    k = rkind(rng)
+    put("overlap", ["last-slice-only", "same-start"],
+        sl(k, [q1, q2, q3], m1) + sl(k, [q1, q2, q3], m2) + sl(k, [q1, q2, q3, h2], m3))
+    k = rkind(rng)
+    put("overlap", ["last-slice-only", "same-end"],
+        sl(k, [q1, q2, q3, q4], m1) + sl(k, [q1, q2, q3, q4], m2) + sl(k, [q1, q2, q3, q4, dec], m3))
+    # only the LAST pair of periods: same start / nested / one shared day; control: adjacent
+    k = rkind(rng)
+    qs = [(am(J, 3 * i), am(J, 3 * i + 2, end=True)) for i in range(6)]
+    put("overlap", ["last-pair-only", "same-start"], sl(k, qs + [(qs[-1][0], am(qs[-1][1], 3, end=True))], m1))
+    put("overlap", ["last-pair-only", "nested"], sl(rkind(rng), qs + [(am(qs[-1][0], 1), am(qs[-1][0], 1, end=True))], m1))
+    for tag, shift in (("one-shared-day", 0), ("adjacent", 1), ("one-day-gap", 2)):
+        ps = D(y, rng.randrange(1, 13), rng.randrange(1, 28))
+        rows = []
+        for i in range(5):
+            pe = ps + 13 * DAY
+            rows.append((ps, pe, [pe, pe + 14 * DAY]))
+            ps = pe + (DAY if i < 3 else shift * DAY)
+        put("overlap", ["last-pair-only", tag], rows_cells(rkind(rng), rows, m1, scalars(rng)))
+    # one shared day at the FIRST pair only (control for "last pair" shortcuts the other way round)
+    rows, ps = [], D(y, 3, 10)
+    for i in range(4):
+        pe = ps + 9 * DAY
+        rows.append((ps, pe, [pe + 5 * DAY]))
+        ps = pe + (0 * DAY if i == 0 else DAY)
+    put("overlap", ["first-pair-only", "one-shared-day"], rows_cells(rkind(rng), rows, m2, scalars(rng)))
+
+
+# -- lesson 3: off the month grid ------------------------------------------------------------------------------------
+
+def les_midmonth(rng, put):
+    y = rng.randrange(1995, 2030)
+    m0 = rng.randrange(1, 10)
+    S = D(y, m0, 1)
+    m1, m2 = Metadata(country="AA"), Metadata(country="BB")
+    # month periods evaluated on the 15th AND at the end of the same months
+    rows = []
+    for i in range(3):
+        ps = am(S, i)
+        pe = am(ps, 0, end=True)
+        rows.append((ps, pe, sorted({pe, am(ps, 1).replace(day=15), am(pe, 1, end=True), am(ps, 2).replace(day=15)})))
+    put("midmonth", ["eval-15th-and-month-end"], rows_cells(rkind(rng), rows, m1, scalars(rng)), units=ALL_UNITS)
+    # periods 16th -> 15th
+    rows = []
+    for i in range(4):
+        ps = am(S, i).replace(day=16)
+        pe = am(S, i + 1).replace(day=15)
+        rows.append((ps, pe, [pe, am(S, i + 2).replace(day=15), am(S, i + 2, end=True)][: rng.randrange(1, 4)]))
+    put("midmonth", ["periods-16th-to-15th"], rows_cells(rkind(rng), rows, m1, scalars(rng)), units=ALL_UNITS)
+    # half months 1-15 / 16-EOM
+    rows = []
+    for i in range(3):
+        a = am(S, i)
+        rows.append((a, a.replace(day=15), [a.replace(day=15), am(a, 0, end=True)]))
+        rows.append((a.replace(day=16), am(a, 0, end=True), [am(a, 0, end=True), am(a, 1).replace(day=15)]))
+    put("midmonth", ["half-months"], rows_cells(rkind(rng), rows, m1, scalars(rng)))
+    # period ends inside a month: the month FOLLOWING the end month is the boundary (2 and 4 months here)
+    rows = [(S, am(S, 1).replace(day=15), [am(S, 1).replace(day=15), am(S, 2).replace(day=20)]),
+            (am(S, 2), am(S, 5).replace(day=20), [am(S, 5).replace(day=20)])]
+    put("midmonth", ["period-ends-mid-month", "resolution"], rows_cells(rkind(rng), rows, m1, scalars(rng)))
+    # period starts inside a month, ends at month ends
+    rows = [(am(S, 0).replace(day=10), am(S, 2, end=True), [am(S, 2, end=True)]),
+            (am(S, 3).replace(day=20), am(S, 8, end=True), [am(S, 8, end=True), am(S, 9).replace(day=3)])]
+    put("midmonth", ["period-starts-mid-month", "resolution"], rows_cells(rkind(rng), rows, m1, scalars(rng)))
+    # gcd of mixed period gaps: 3 and 12 -> 3; 6 and 9 -> 3; quarters with a 1-month stub LATE -> 1; 6, 6, 6, 4 -> 2
+    for tag, lens in (("gaps-3-12", [3, 12]), ("gaps-6-9", [6, 9]), ("gaps-12-3", [12, 3]),
+                      ("late-1-month-stub", [3, 3, 3, 3, 1]), ("late-4-after-6s", [6, 6, 6, 4]),
+                      ("first-1-month-stub", [1, 3, 3, 3])):
+        rows, cur = [], D(y, 1, 1)
+        for n in lens:
+            pe = am(cur, n - 1, end=True)
+            rows.append((cur, pe, [pe, am(pe, 3, end=True)]))
+            cur = pe + DAY
+        slices = rows_cells(rkind(rng), rows, m1, scalars(rng))
+        put("midmonth", ["period-gcd", tag], slices)
+    # the late stub lives in the LAST slice only
+    k = rkind(rng)
+    q = month_rows(D(y, 1, 1), 3, 4, [0, 3])
+    put("midmonth", ["period-gcd", "stub-in-last-slice-only"],
+        rows_cells(k, q, m1, scalars(rng)) + rows_cells(k, q + [(D(y + 1, 1, 1), D(y + 1, 1, 31), [D(y + 1, 1, 31)])], m2,
+                                                       scalars(rng)))
+    # gcd of evaluation-month gaps, evaluation dates anywhere inside their months
+    for tag, offs in (("gaps-3-12", [0, 3, 15]), ("gaps-6-9", [0, 6, 15]), ("late-1-month", [0, 3, 6, 9, 10]),
+                      ("late-same-month", [0, 3, 6, 6]), ("gaps-4-6", [0, 4, 10])):
+        pe = am(S, 2, end=True)
+        days = [rng.choice([1, 15, 28]) for _ in offs]
+        if tag == "late-same-month":
+            days[-2:] = [10, 20]
+        es = sorted({max(pe, am(pe, o).replace(day=dd)) for o, dd in zip(offs, days)})
+        put("midmonth", ["eval-gcd", tag], rows_cells(rkind(rng), [(S, pe, es)], m1, scalars(rng)))
+    # 29 days that cross two month boundaries vs 31 days inside one month
+    rows = [(D(y, 1, 1), D(y, 1, 31), [D(y, 1, 31), D(y, 3, 1)]), (D(y, 2, 1), D(y, 2, 28), [D(y, 3, 1), D(y, 3, 31)])]
+    put("midmonth", ["eval-gcd", "month-id-vs-days"], rows_cells(rkind(rng), rows, m1, scalars(rng)))
+
+
+# -- is_regular / is_semi_regular boundaries (lessons 3 / 4 applied to the lag and length sets) -----------------------
+
+def les_regularity(rng, put):
+    y = rng.randrange(1995, 2030)
+    m1, m2 = Metadata(country="AA"), Metadata(country="BB")
+    lagsets = [("cancelling-0-3-7-9", [0, 3, 7, 9]), ("cancelling-0-3-6-8-12", [0, 3, 6, 8, 12]),
+               ("first-gap=last-gap", [0, 2, 5, 7]), ("late-off-grid", [0, 3, 6, 9, 13]),
+               ("regular", [0, 3, 6, 9, 12]), ("first-gap-differs", [0, 4, 6, 8, 10]),
+               ("second-to-last-gap-differs", [0, 2, 4, 6, 9, 11]), ("two-lags", [0, 5]), ("one-lag", [4]),
+               ("span=n*first-gap", [0, 2, 3, 6])]
+    for tag, lags in lagsets:
+        how = rng.choice(["square", "spread", "one-period"])
+        res = rng.choice([1, 3])
+        if how == "square":
+            rows = month_rows(D(y, 1, 1), res, 3, lags)
+        elif how == "one-period":
+            rows = month_rows(D(y, 1, 1), res, 1, lags)
+        else:
+            # the lags are spread over the periods; the LAST lag is seen in the last period only
+            per = [sorted(set(lags[:-1][i::2]) | {lags[0]}) for i in range(2)] + [[lags[0], lags[-1]]]
+            rows = month_rows(D(y, 1, 1), res, 3, per)
+        k = rkind(rng)
+        cells = rows_cells(k, rows, m1, scalars(rng))
+        if rng.random() < 0.5:
+            cells += rows_cells(k, month_rows(D(y, 1, 1), res, 2, lags[:2]), m2, scalars(rng))
+        put("regularity", ["lags", tag, how], cells, units=BASE_UNITS + ["Months", "DAYS"])
+    # the same in days: 7-day periods, lags in days
+    for tag, lags in (("days-cancelling", [0, 7, 15, 21]), ("days-late-off-grid", [0, 7, 14, 21, 29]),
+                      ("days-regular", [0, 7, 14, 21])):
+        ps = D(y, rng.randrange(1, 13), rng.randrange(1, 28))
+        rows = []
+        for i in range(3):
+            pe = ps + 6 * DAY
+            rows.append((ps, pe, [pe + k * DAY for k in lags]))
+            ps = pe + DAY
+        put("regularity", ["lags", tag], rows_cells(rkind(rng), rows, m1, scalars(rng)))
+    # period lengths: equal in months but 28/29/30/31 days; equal in days but not in months; ONE period a day longer
+    for yy, tag in ((2021, "calendar-months-28"), (2024, "calendar-months-29")):
+        rows = [(D(yy, i, 1), gen.month_end(yy, i), [gen.month_end(yy, i), gen.month_end(yy, i + 1)]) for i in (1, 2, 3, 4)]
+        put("regularity", ["lengths", tag], rows_cells(rkind(rng), rows, m1, scalars(rng)))
+    put("regularity", ["lengths", "february-28-and-29"],
+        rows_cells(rkind(rng), [(D(2023, 2, 1), D(2023, 2, 28), [D(2023, 2, 28)]), (D(2024, 2, 1), D(2024, 2, 29), [D(2024, 2, 29)])],
+                   m1, scalars(rng)))
+    for tag, lens in (("30-day-periods", [30, 30, 30, 30]), ("last-one-day-longer", [30, 30, 30, 31]),
+                      ("middle-one-day-longer", [30, 31, 30, 30]), ("first-one-day-longer", [31, 30, 30])):
+        ps, rows = D(y, 3, 1), []
+        for n in lens:
+            pe = ps + (n - 1) * DAY
+            rows.append((ps, pe, [pe, pe + 30 * DAY]))
+            ps = pe + DAY
+        put("regularity", ["lengths", tag], rows_cells(rkind(rng), rows, m1, scalars(rng)))
+    # whole months, the last period running one day into the next month
+    rows = [(D(y, 2, 1), gen.month_end(y, 2), [gen.month_end(y, 2)]), (D(y, 3, 1), D(y, 3, 31), [D(y, 3, 31)]),
+            (D(y, 4, 1), D(y, 5, 1), [D(y, 5, 1)])]
+    put("regularity", ["lengths", "months-last-one-day-longer"], rows_cells(rkind(rng), rows, m1, scalars(rng)))
+    # quarters, the unequal period lives in the last slice only
+    k = rkind(rng)
+    q = month_rows(D(y, 1, 1), 3, 3, [0])
+    put("regularity", ["lengths", "unequal-period-in-last-slice-only"],
+        rows_cells(k, q, m1, scalars(rng)) + rows_cells(k, q + [(D(y, 10, 1), D(y, 11, 30), [D(y, 11, 30)])], m2, scalars(rng)))
+
+
+# -- lesson 4: the distinguishing attribute sits in a LATE slice ----------------------------------------------------
+
+LATE_PAIRS = {   # attribute -> (value shared by the others, value of the odd slice)
+    "risk_basis": [("Accident", "Policy"), ("Accident", "Report"), ("Policy", "Report"), ("", "Accident")],
+    "country": [(None, "US"), ("", "US"), ("US", "ZZ"), ("US", None), ("US", "")],
+    "currency": [(None, "USD"), ("", "EUR"), ("USD", "EUR"), ("USD", None), ("USD", "")],
+    "reinsurance_basis": [(None, "Net"), ("", "Net"), ("Gross", "Net"), ("Gross", None), ("Gross", "")],
+    "loss_definition": [(None, "Loss"), ("", "Loss"), ("Loss", "Loss+DCC"), ("Loss", None)],
+    "per_occurrence_limit": [(None, 0), (None, 1e6), (0, None), (0, 2.5), (0.0, 1e6), (1e6, None), (1e6, 0), (5e5, 1e6),
+                             (0, 0.0), (1000000, 1e6)],      # equal numbers of different Python types: still shared
+}
+DETAIL_PAIRS = [   # tag, dict shared by the others, dict of the odd slice
+    ("key-missing-in-odd", {"lob": "auto", "k": 0}, {"k": 0}),
+    ("other-value-in-odd", {"lob": "auto", "k": 0}, {"lob": "home", "k": 0}),
+    ("None-vs-missing", {"flag": None}, {}),
+    ("missing-vs-None", {}, {"flag": None}),
+    ("0-vs-False", {"k": 0, "lob": "auto"}, {"k": False, "lob": "auto"}),
+    ("0-vs-missing", {"k": 0}, {}),
+    ("0-vs-None", {"k": 0}, {"k": None}),
+    ("empty-string-vs-None", {"k": ""}, {"k": None}),
+    ("False-vs-missing", {"k": False}, {}),
+    ("None-vs-0", {"k": None, "lob": "auto"}, {"k": 0, "lob": "auto"}),
+    ("0-vs-0.0", {"k": 0, "lob": "auto"}, {"k": 0.0, "lob": "auto"}),
+    ("1-vs-True", {"k": 1}, {"k": True}),
+]
+POS_COUNTRY = ["AA", "BB", "CC", "DD", "EE"]
+POS_RISK = [None, "Accident", "Policy", "Report"]
+RICH = dict(risk_basis="Accident", country="US", currency="USD", reinsurance_basis="Gross", loss_definition="Loss",
+            per_occurrence_limit=1e6, details={"lob": "auto", "k": 0}, loss_details={"peril": "wind"})
+
+
+def positioned_metas(rng, attr, shared, odd, n, odd_at, others):
+    """n metadata in ascending `__lt__` order. Slice `odd_at` carries `odd` in `attr`, every other slice `shared`.
+    `others`: 'same' (all other attributes equal and non-default), 'default' (all other attributes at the dataclass
+    default) or 'distinct' (every other attribute differs from slice to slice)."""
+    pos_attr = "risk_basis" if attr == "country" else "country"
+    pos = POS_RISK if pos_attr == "risk_basis" else POS_COUNTRY
+    out = []
+    for i in range(n):
+        kw = dict(RICH) if others == "same" else {}
+        if others == "distinct":
+            kw = dict(currency=f"C{i}", reinsurance_basis=f"R{i}", loss_definition=f"L{i}", per_occurrence_limit=100 + i,
+                      details={"id": i}, loss_details={"lid": i})
+            if pos_attr == "risk_basis":
+                kw["country"] = None
+        val = odd if i == odd_at else shared
+        if attr in ("details", "loss_details") and others == "distinct":
+            val = {**val, ("id" if attr == "details" else "lid"): i}
+        kw[attr] = val
+        if attr != "risk_basis":
+            kw[pos_attr] = pos[i]
+        else:
+            kw["country"] = POS_COUNTRY[i]
+        out.append(Metadata(**kw))
+    return out
+
+
+def meta_cells(rng, metas, kind=None, fields=("paid_loss", "reported_loss")):
+    """one or two cells per slice on a common two-period layout, in the order of `metas` (no shuffle)"""
+    kind = kind or rkind(rng)
+    y = rng.randrange(1995, 2030)
+    rows = month_rows(D(y, 1, 1), 3, 2, [[0, 1], [0]], lag_step=3)
+    cells = []
+    for m in metas:
+        cells += rows_cells(kind, rows if rng.random() < 0.5 else rows[:1], m, scalars(rng, fields))
+    return cells
+
+
+def les_late(rng, put):
+    for attr in gen.ATTRS:
+        pats = ["last", "second-to-last", "middle", "first"]
+        if attr == "risk_basis":
+            pats = ["last", "last"]          # the primary sort key: an odd value cannot sit between equal ones
+        for pat in pats:
+            n = rng.choice([4, 5]) if pat == "middle" else rng.choice([3, 4, 5])
+            if attr == "country":
+                n = min(n, 4)
+            odd_at = {"last": n - 1, "second-to-last": n - 2, "middle": 1, "first": 0}[pat]
+            if attr in ("details", "loss_details"):
+                tag, shared, odd = rng.choice(DETAIL_PAIRS[:2])
+            else:
+                shared, odd = rng.choice(LATE_PAIRS[attr])
+                tag = f"{shared!r}-vs-{odd!r}"
+            if attr == "risk_basis" and not ((shared is not None, shared or "") < (odd is not None, odd or "")):
+                shared, odd = odd, shared
+            others = rng.choice(["same", "default", "distinct"])
+            if attr == "risk_basis" and pat == pats[0]:
+                pats[0] = "last "            # the first of the two: nothing else is shared, the running fold is `Metadata()`
+                shared, odd, others = "Accident", rng.choice(["Policy", "Report"]), "default"
+            metas = positioned_metas(rng, attr, shared, odd, n, odd_at, others)
+            put("late", [f"{attr}/{pat}", f"others-{others}"], meta_cells(rng, metas))
+    # every details / loss_details flavour once (late or middle position)
+    for attr in ("details", "loss_details"):
+        for tag, shared, odd in DETAIL_PAIRS:
+            pat = rng.choice(["last", "second-to-last", "middle"])
+            n = rng.choice([4, 5]) if pat == "middle" else rng.choice([3, 4, 5])
+            odd_at = {"last": n - 1, "second-to-last": n - 2, "middle": 1}[pat]
+            others = rng.choice(["same", "default", "distinct"])
+            if others == "same":
+                others = "default"           # RICH carries its own details
+            metas = positioned_metas(rng, attr, shared, odd, n, odd_at, others)
+            put("late", [f"{attr}/{tag}", f"{attr}/{pat}"], meta_cells(rng, metas))
+
+
+# -- lesson 5: degenerate triangles, every unit spelling, default arguments --------------------------------------------
+
+def les_options(rng, put):
+    for kind in ("C", "U", "I"):
+        ps = D(rng.randrange(1995, 2030), rng.randrange(1, 13), rng.choice([1, 10]))
+        pe = ps + rng.choice([0, 27, 30, 89]) * DAY
+        ev = pe + rng.choice([0, 1, 15, 365]) * DAY
+        m = Metadata(**rng.choice([{}, RICH, {"details": {"flag": None}}]))
+        vals = rng.choice([{}, {"paid_loss": 0}, {"paid_loss": gen.rand_value(rng, "farr", n_samples=40), "n": None}])
+        for defaults in (False, True):
+            put("options", ["single-cell", f"kind={kind}", "defaults" if defaults else "explicit"],
+                rows_cells(kind, [(ps, pe, [ev])], m, lambda *a: dict(vals)), units=ALL_UNITS, defaults=defaults, twice=True)
+    for defaults in (False, True):
+        put("options", ["empty", "defaults" if defaults else "explicit"], [], units=ALL_UNITS, defaults=defaults, twice=True)
+    # a multi-slice triangle with every spelling, both calling conventions
+    for defaults in (False, True):
+        metas = positioned_metas(rng, "currency", "USD", "EUR", 3, 2, "same")
+        put("options", ["every-unit-spelling", "defaults" if defaults else "explicit"], meta_cells(rng, metas),
+            units=ALL_UNITS, defaults=defaults, twice=True)
+
+
+# -- lesson 6: twins -- same coordinates and metadata, other content, consecutively in one process --------------------
+
+def les_twin(rng, put):
+    y = rng.randrange(1995, 2030)
+    rows = month_rows(D(y, 1, 1), 3, 3, [[0, 1, 2], [0, 1], [0]], lag_step=3)
+    metas = [Metadata(country="AA", currency="USD", details={"lob": "auto"}),
+             Metadata(country="BB", currency="USD", details={"lob": "auto"}),
+             Metadata(country="CC", currency="USD", details={"lob": "home"})]
+
+    def tri(kind, valfn, ms=metas):
+        out = []
+        for i, m in enumerate(ms):
+            out += rows_cells(kind, rows, m, lambda ps, pe, ev, i=i: valfn(i, ps, pe, ev))
+        return out
+    base = {}
+
+    def a_vals(i, ps, pe, ev):
+        return base.setdefault((i, ps, ev), {"paid_loss": rng.randrange(1, 4096), "reported_loss": float(rng.randrange(1, 4096))})
+
+    def arr(S):
+        return lambda i, ps, pe, ev: {"paid_loss": gen.rand_value(rng, "farr", n_samples=S), "reported_loss": rng.randrange(9)}
+
+    def incons(i, ps, pe, ev):
+        return {"paid_loss": gen.rand_value(rng, "farr", n_samples=3 if (i, ps.month, ev.month) != (2, 7, 9) else 4), "reported_loss": 1}
+
+    def coverage(i, ps, pe, ev):
+        v = {"paid_loss": 2 * a_vals(i, ps, pe, ev)["paid_loss"]}
+        if i != 2:
+            v["reported_loss"] = 1.0
+        if i == 2 and ev == pe:
+            v["earned_premium"] = 5
+        return v
+    def slice_coverage(i, ps, pe, ev):
+        v = dict(a_vals(i, ps, pe, ev))
+        if i == 2:
+            del v["reported_loss"]
+        return v
+    pairs = [("same-fields-other-slice-coverage", a_vals, slice_coverage, metas),
+             ("rescaled-values", a_vals, lambda i, ps, pe, ev: {k: 2 * v for k, v in a_vals(i, ps, pe, ev).items()}, metas),
+             ("other-field-coverage", a_vals, coverage, metas),
+             ("samples-4-then-40", arr(4), arr(40), metas),
+             ("scalars-then-samples", a_vals, arr(256), metas),
+             ("samples-then-scalars", arr(5), a_vals, metas),
+             ("consistent-then-inconsistent", arr(3), incons, metas),
+             ("inconsistent-then-consistent", incons, arr(3), metas),
+             ("other-metadata-same-coordinates", a_vals, a_vals,
+              [metas[0], metas[1], dataclasses.replace(metas[2], currency="EUR", details={"lob": "auto"})])]
+    for tag, fa, fb, msb in pairs:
+        kind = rkind(rng)
+        put("twin", [tag, "first"], tri(kind, fa))
+        put("twin", [tag, "second"], tri(kind, fb, msb))
+
+
+# -- lesson 7: derived triangles whose parent's caches are all warm ---------------------------------------------------
+
+def les_derived(rng, put, ctx):
+    from bermuda.utils.merge import coalesce, merge
+    for flavour in ("samples", "details"):
+        y = rng.randrange(1995, 2030)
+        kind = rkind(rng)
+        rows = month_rows(D(y, 1, 1), 3, 4, [[0, 1, 2, 3], [0, 1, 2], [0, 1], [0]], lag_step=3)
+        metas = [Metadata(country="AA", currency="USD", per_occurrence_limit=0, details={"lob": "auto", "k": 0},
+                          loss_details={"peril": "wind"}),
+                 Metadata(country="BB", currency="USD", per_occurrence_limit=0, details={"lob": "auto", "k": 1},
+                          loss_details={"peril": "wind"}),
+                 Metadata(country="CC", currency="EUR", per_occurrence_limit=0, details={"lob": "home", "k": 0},
+                          loss_details={"peril": "wind", "late": None})]
+        cells = []
+        for i, m in enumerate(metas):
+            def vf(ps, pe, ev, i=i):
+                v = {"reported_loss": rng.randrange(4096)}
+                if i < 2:
+                    v["paid_loss"] = gen.rand_value(rng, "farr", n_samples=4) if flavour == "samples" else rng.randrange(99)
+                if i == 2 and ev == pe:
+                    v["earned_premium"] = 0
+                if ev.year > y:
+                    v["open_claims"] = None
+                return v
+            cells += rows_cells(kind, rows if i < 2 else rows[:3], m, vf)
+        parent = put("derived", ["parent", flavour], cells, twice=False)
+        if parent is None:
+            continue
+        c09_seq.read_accessors(parent)                 # every cached accessor of the parent is warm now
+        evs, pers, fields = parent.evaluation_dates, parent.periods, parent.fields
+        half = len(parent) // 2
+        ops = [
+            ("filter-last-slice", lambda: parent.filter(lambda c: c.metadata == metas[2])),
+            ("filter-first-slice", lambda: parent.filter(lambda c: c.metadata == metas[0])),
+            ("filter-drop-first-period", lambda: parent.filter(lambda c: c.period != pers[0])),
+            ("filter-one-period", lambda: parent.filter(lambda c: c.period == pers[-1])),
+            ("filter-nothing-left", lambda: parent.filter(lambda c: False)),
+            ("filter-everything", lambda: parent.filter(lambda c: True)),
+            ("clip-max-eval", lambda: parent.clip(max_eval=evs[1])),
+            ("clip-min-period", lambda: parent.clip(min_period=pers[1][0])),
+            ("clip-max-dev", lambda: parent.clip(max_dev=3)),
+            ("slice-tail", lambda: parent[half:]),
+            ("slice-head", lambda: parent[:half]),
+            ("slice-step", lambda: parent[::3]),
+            ("getitem-period-slice", lambda: parent[pers[1][0]:, :, :]),
+            ("getitem-eval-slice", lambda: parent[:, :evs[1], :]),
+            ("getitem-metadata", lambda: parent[:, :, metas[2]]),
+            ("getitem-period-eval-metadata", lambda: parent[pers[1][0]:, evs[1]:, metas[0]]),
+            ("select-one-field", lambda: parent.select(["reported_loss"])),
+            ("select-sample-field", lambda: parent.select(["paid_loss"])),
+            ("select-late-field", lambda: parent.select(["earned_premium", "open_claims"])),
+            ("select-nothing", lambda: parent.select([])),
+            ("derive_fields-const", lambda: parent.derive_fields(zz_new=1)),
+            ("derive_fields-overwrite-samples", lambda: parent.derive_fields(paid_loss=2.5)),
+            ("derive_metadata-merge-currency", lambda: parent.derive_metadata(currency="USD", country=None)),
+            ("derive_metadata-merge-details", lambda: parent.derive_metadata(details={}, loss_details={})),
+            ("derive_metadata-split-by-period", lambda: parent.derive_metadata(zz_period=lambda c: c.period_start.month)),
+            ("replace-values", lambda: parent.replace(values=lambda c: {"only": len(c.values)})),
+            ("replace-evaluation-date", lambda: parent.replace(evaluation_date=lambda c: c.evaluation_date + 15 * DAY)),
+            ("replace-period-end", lambda: parent.replace(period_end=lambda c: c.period_end - 10 * DAY)),
+            ("right_edge", lambda: parent.right_edge),
+            ("add-copy", lambda: parent + parent.derive_metadata(zz_copy=True).select(["reported_loss"])),
+            ("remove_static_details", lambda: parent.remove_static_details()),
+            ("coalesce", lambda: coalesce([parent.filter(lambda c: c.metadata == metas[2]), parent.select(["reported_loss"])])),
+            ("merge", lambda: merge(parent.select(["reported_loss"]).clip(max_eval=evs[2]),
+                                    parent.filter(lambda c: c.metadata != metas[0]).derive_fields(zz_new=1))),
+            ("slices-value", lambda: parent.slices[metas[1]]),
+        ]
+        for name, fn in ops:
+            st, out = call(fn)
+            if st != "ok" or not isinstance(out, Triangle):
+                ctx.count(f"lesson/derived/{name}/raised")
+                continue
+            put("derived", [name, f"parent-{flavour}"], None, tri=out, twice=rng.random() < 0.4)
+        # the parent once more, after everything was derived from it
+        put("derived", ["parent-read-again", flavour], None, tri=parent, twice=True)
+
+
+# -- lesson 8: falsy everywhere ------------------------------------------------------------------------------------------
+
+FALSY = [("per_occurrence_limit", 0), ("per_occurrence_limit", 0.0), ("risk_basis", ""), ("country", ""), ("currency", ""),
+         ("reinsurance_basis", ""), ("loss_definition", ""), ("details", {"k": 0}), ("details", {"k": False}),
+         ("details", {"k": ""}), ("details", {"k": 0.0}), ("details", {"flag": None}), ("loss_details", {"k": 0}),
+         ("loss_details", {"k": False}), ("loss_details", {"k": ""}), ("loss_details", {"flag": None})]
+
+
+def les_falsy(rng, put):
+    # falsy in EVERY slice (it is shared: common_metadata keeps it, the differences drop it)
+    for attr, val in FALSY:
+        n = rng.choice([2, 3, 4])
+        unset = {} if attr in ("details", "loss_details") else None
+        if attr == "risk_basis":
+            metas = [Metadata(risk_basis="", country=POS_COUNTRY[i]) for i in range(n)]
+        else:
+            metas = positioned_metas(rng, attr, val, val, n, 0, rng.choice(["default", "distinct"]))
+        put("falsy", ["every-slice", f"{attr}={val!r}"], meta_cells(rng, metas))
+        # falsy in ONE late slice only, unset elsewhere (the difference of that slice must carry the falsy value)
+        if attr != "risk_basis":
+            odd_at = rng.choice([n - 1, max(n - 2, 0)])
+            metas = positioned_metas(rng, attr, unset, val, n, odd_at, rng.choice(["default", "same"]) if unset is None else "default")
+            put("falsy", ["one-late-slice-only", f"{attr}={val!r}"], meta_cells(rng, metas))
+    # equal values of different Python types in different slices (0 == 0.0 == False, 1000000 == 1e6): shared all the same
+    for tag, vals in (("limit-0-0.0-False", [0, 0.0, False]), ("limit-int-float", [1000000, 1e6, 1000000])):
+        put("falsy", ["equal-values-of-different-types", tag],
+            meta_cells(rng, [Metadata(country=c, per_occurrence_limit=v) for c, v in zip(POS_COUNTRY, vals)]))
+    for attr in ("details", "loss_details"):
+        put("falsy", ["equal-values-of-different-types", f"{attr}-0-0.0-False"],
+            meta_cells(rng, [Metadata(country=c, **{attr: {"k": v, "one": w}})
+                             for c, v, w in zip(POS_COUNTRY, [0, 0.0, False], [1, True, 1.0])]))
+    # all of them at once
+    allf = dict(risk_basis="", currency="", reinsurance_basis="", loss_definition="", per_occurrence_limit=0,
+                details={"k": 0, "s": "", "b": False, "n": None}, loss_details={"k": 0.0, "n": None})
+    put("falsy", ["every-slice", "all-attributes-falsy"],
+        meta_cells(rng, [Metadata(country=c, **allf) for c in ["", "AA", "BB"]]))
+    put("falsy", ["every-slice", "all-attributes-falsy", "country-too"],
+        meta_cells(rng, [Metadata(country="", **{**allf, "details": {**allf["details"], "id": i}}) for i in range(3)]))
+    # fields whose value is 0 / 0.0 / None / an empty array / all-zero samples in EVERY cell; and only in the last slice
+    metas = [Metadata(country=c) for c in POS_COUNTRY[:3]]
+    fv = {"paid_loss": 0, "reported_loss": 0.0, "open_claims": None, "zz_empty": np.array([]), "zeros": np.zeros(4),
+          "false": False}
+    y = rng.randrange(1995, 2030)
+    rows = month_rows(D(y, 1, 1), 3, 2, [0, 1], lag_step=3)
+    k = rkind(rng)
+    put("falsy", ["fields", "every-cell"],
+        [c for m in metas for c in rows_cells(k, rows, m, lambda *a: {f: (v.copy() if isinstance(v, np.ndarray) else v)
+                                                                      for f, v in fv.items()})])
+    k = rkind(rng)
+    cells = []
+    for i, m in enumerate(metas):
+        cells += rows_cells(k, rows, m, lambda *a, i=i: ({"earned_premium": 3, **({f: (v.copy() if isinstance(v, np.ndarray) else v)
+                                                                                  for f, v in fv.items()} if i == 2 else {})}))
+    put("falsy", ["fields", "last-slice-only"], cells)
+    for name, v in (("None", None), ("0", 0), ("empty-array", np.array([])), ("0.0", 0.0)):
+        k = rkind(rng)
+        put("falsy", ["fields", f"only-field-is-{name}"],
+            [c for m in metas[:2] for c in rows_cells(k, rows, m, lambda *a: {"paid_loss": v})])
+
+
+LESSONS = [("large", les_large), ("overlap", les_overlap), ("midmonth", les_midmonth), ("regularity", les_regularity),
+           ("late", les_late), ("options", les_options), ("twin", les_twin), ("derived", les_derived),
+           ("falsy", les_falsy)]
+
+
 def correspondence(ctx):
     rng = ctx.rng
     drv = common.Driver("drv_c13")
     n_tri = 9000 if ctx.thorough else 1500
     reqs, cases = [], []
-    def emit(t, wcells, desc):
-        units = ["month", "day", "timedelta"]
-        if rng.random() < 0.15:
-            units.append(rng.choice(["Months", "DAYS", "weeks", "fortnight"]))
+    def emit(t, wcells, desc, units=None, twice=None, defaults=None):
+        """ONE case: every accessor of the Triangle object `t` is read and queued for the model comparison, the Spec
+        predicates on the implementation's output and the independent taxonomy. Random and lesson cases share it.
+        `units` / `twice` / `defaults` force what the random cases draw (no random number is consumed when given);
+        `defaults`: month answers from the calls WITHOUT argument, other units by keyword (every 4th case otherwise)."""
+        if units is None:
+            units = ["month", "day", "timedelta"]
+            if rng.random() < 0.15:
+                units.append(rng.choice(["Months", "DAYS", "weeks", "fortnight"]))
+        else:
+            units = list(units)
+        if defaults is None:
+            defaults = len(reqs) % 4 == 1
+        if twice is None:
+            twice = rng.random() < 0.3
+        if defaults:
+            ctx.count("options/unit argument omitted (month) or passed by keyword")
         for k, v in desc.items():
             ctx.count(f"tri/{k}={v}")
-        d = impl_dump(t, units)
-        if rng.random() < 0.3:
+        d = impl_dump(t, units, defaults)
+        if twice:
             # read everything a second time on the same object, after emptying the containers that the
             # non-cached accessors returned (dev_lags list, slices dict): the answers must not change
             ctx.count("stream/accessors read twice")
@@ -411,7 +1094,11 @@ def correspondence(ctx):
             st, sl = call(lambda: t.slices)
             if st == "ok":
                 sl.clear()
-            d2 = impl_dump(t, units)
+            st, rws = call(lambda: list(t.slice_period_rows))
+            if st == "ok":
+                for _, row in rws:
+                    row.clear()
+            d2 = impl_dump(t, units, not defaults)      # the other calling convention on the second read
             if d2 != d:
                 diff = sorted(k for k in d if d[k] != d2.get(k))
                 ctx.fail("accessors give different answers on a second read of the same triangle",
@@ -487,6 +1174,32 @@ def correspondence(ctx):
                 ctx.count(f"derived/{name}")
                 emit(out, w_cells(out.cells), {"layout": f"derived:{name}", "slices": len(out.slices),
                                                "kind": desc["kind"], "samples": desc["samples"]})
+
+    # the eight generator lessons of seeded batch 4: a fixed quota of each input kind in EVERY run, through the same
+    # `emit` as the random cases. Knob for mutation experiments only: VERIF_SKIP_LESSONS=1 drops them.
+    def put(stream, tags, cells, tri=None, **opts):
+        if tri is None:
+            st, tri = call(Triangle, cells)
+            if st != "ok":
+                raise common.Infra(f"lesson generator {stream} {tags} produced cells the constructor refuses: {tri}")
+            wc = w_cells(cells)
+        else:
+            wc = w_cells(tri.cells)
+        ctx.count(f"stream=lesson:{stream}")
+        for tg in tags:
+            ctx.count(f"lesson/{stream}/{tg}")
+        kinds = {common.w_kind(c) for c in tri.cells}
+        emit(tri, wc, {"layout": f"lesson:{stream}", "slices": len({c.metadata for c in tri.cells}),
+                       "kind": kinds.pop() if len(kinds) == 1 else "-", "samples": "-"}, **opts)
+        return tri
+
+    reps = 0 if os.environ.get("VERIF_SKIP_LESSONS") else 4 if ctx.thorough else 1
+    for _ in range(reps):
+        for name, fn in LESSONS:
+            if name == "derived":
+                fn(rng, put, ctx)
+            else:
+                fn(rng, put)
 
     outs = drv.run(reqs)
 
@@ -603,7 +1316,19 @@ if __name__ == "__main__":
              "inconsistent-size / size-1 values, None-valued detail entries present in some slices only; units month, day, "
              "timedelta (+ aliases and unrecognised units); sequence stream: accessors read twice on one object, and "
              "accessors of triangles DERIVED (derive_metadata merging/splitting slices, derive_fields, select, clip, +, "
-             "right_edge, filter) from an object whose cached accessors were all read before. "
+             "right_edge, filter) from an object whose cached accessors were all read before; unit argument omitted / "
+             "passed by keyword on every 4th case. LESSON cases (fixed quota in every run, same per-case checks, "
+             "histogram lesson/*): large (>= 300 cells, >= 256 slices / periods / lags / fields, 40-1000 samples, the "
+             "deviation in the last cell / slice / pair), overlap (same start or same end in one slice, between slices "
+             "only, last slice only, last pair only, one shared day vs adjacent), midmonth (evaluations on the 15th, "
+             "periods 16th-15th, half months, mid-month period boundaries, gcd of mixed period / evaluation gaps with a "
+             "late stub), regularity (lag sets whose deviations cancel, first gap = last gap, late off-grid lag, period "
+             "lengths equal in months or in days only, one period a day longer), late (each of the eight attributes and "
+             "twelve details flavours differing only in the last / second-to-last / a middle / the first of 3-5 slices), "
+             "options (single-cell and empty triangles, 16 unit spellings, default arguments), twin (same coordinates "
+             "and metadata, other values / field coverage / sample counts, consecutively), derived (33 operations on a "
+             "parent whose caches are warm), falsy (every falsy value of every attribute in every slice / in one late "
+             "slice only; fields that are 0 / None / empty arrays in every cell). "
              "distinct = distinct canonical cell dump; non-trivial = more than one cell",
         assumptions=["month lags and month period lengths are IEEE doubles in the implementation: implementation lags "
                      "are matched to the exact rational within relative 2^-40, and month-unit dev_lags / is_semi_regular "
